@@ -167,6 +167,23 @@ def run(ctx, nhist=None):
         if want:
             dist["rejected_for_scope"] += 1
             nontriv.add(core.canon(want) + core.canon(sorted((n, s.get("scope")) for n, s in cfg["services"].items())))
+    # 1b. unrestricted configurations: value/type-only services with calls/fields/tags, services without arguments, decorators, cycles
+    for _ in range(600 if ctx.quick else 8000):
+        cfg = gen.gen_config_wild(ctx.rng)
+        a, b, d = corr.compile_pair(ctx, corr.files_of(cfg))
+        if "panic" in a or a.get("errs") or "decodeErr" in a:
+            continue
+        for x in d[:1]:
+            if len(corr_fail) < 10:
+                corr_fail.append({"op": "compile:" + x[0], "files": corr.files_of(cfg), "impl": x[1], "model": x[2]})
+        dist["scope_cases"] += 1
+        got = sorted(tuple(re.findall(r'"([^"]+)"', l)[:2]) for l in a["scope"])
+        want = expected_pairs(cfg)
+        if got != want:
+            violations.append({"sig": "scope-rule", "what": "scope diagnostics name %r, the documented rule gives %r" % (got, want), "files": corr.files_of(cfg)})
+        if want:
+            dist["rejected_for_scope"] += 1
+            nontriv.add(core.canon(want) + core.canon(sorted((n, s.get("scope")) for n, s in cfg["services"].items())))
     # 2. run-time identity on histories
     nhist = nhist or (30 if ctx.quick else 1000)
     items = []
